@@ -60,6 +60,47 @@ type Case struct {
 	Download bool   `json:"download"` // agent 0 has an open download
 	ZeroKey  bool   `json:"zero_key"` // agent 1 uses the all-zero key
 	Reqs     []Req  `json:"reqs"`
+	// Focus: a family of layouts (same handler / same state: downloads, sockets, tokens, ...) that most
+	// callbacks of this case are drawn from, so that one handler sees a run of related messages
+	Focus string `json:"focus,omitempty"`
+}
+
+// family of a layout: the state it works on
+func family(name string) string {
+	switch {
+	case strings.HasPrefix(name, "fs.dl"), strings.HasPrefix(name, "beacon.file"), strings.HasPrefix(name, "transfer"):
+		return "download"
+	}
+	if i := strings.IndexByte(name, '.'); i > 0 {
+		return name[:i]
+	}
+	return name
+}
+
+var (
+	families = map[string][]int{}
+	famNames []string
+)
+
+func init() {
+	for i, l := range layouts {
+		f := family(l.name)
+		families[f] = append(families[f], i)
+	}
+	for f, ix := range families {
+		if len(ix) >= 3 {
+			famNames = append(famNames, f)
+		}
+	}
+	sort.Strings(famNames)
+}
+
+func pickLayout(t *rapid.T, c Case, label string) layout {
+	if c.Focus != "" && rapid.IntRange(0, 9).Draw(t, label+"-infocus") < 7 {
+		ix := families[c.Focus]
+		return layouts[ix[rapid.IntRange(0, len(ix)-1).Draw(t, label+"-f")]]
+	}
+	return layouts[rapid.IntRange(0, len(layouts)-1).Draw(t, label)]
 }
 
 var agentIDs = []uint32{0x11111111, 0x80000022, 0x00000033}
@@ -257,8 +298,13 @@ func (g *bodyGen) seq(toks []string) {
 }
 
 // mutateBody applies one or two corruptions to a grammar-valid body.
-func mutateBody(t *rapid.T, body []byte, lenPos []int) ([]byte, string) {
-	kind := rapid.SampledFrom([]string{"none", "none", "truncate", "lenprefix", "append", "flip", "truncate+lenprefix"}).Draw(t, "mut")
+func mutateBody(t *rapid.T, body []byte, lenPos []int, gentle bool) ([]byte, string) {
+	kinds := []string{"none", "none", "truncate", "lenprefix", "append", "flip", "truncate+lenprefix"}
+	if gentle {
+		// focused cases are about sequences of well-formed messages reaching one handler
+		kinds = []string{"none", "none", "none", "none", "none", "none", "truncate", "lenprefix", "append", "flip"}
+	}
+	kind := rapid.SampledFrom(kinds).Draw(t, "mut")
 	b := append([]byte(nil), body...)
 	if strings.Contains(kind, "lenprefix") && len(lenPos) > 0 {
 		p := lenPos[rapid.IntRange(0, len(lenPos)-1).Draw(t, "lp")]
@@ -303,14 +349,22 @@ func genReq(t *rapid.T, c Case, idx int) Req {
 	}
 	// class B
 	nsub := rapid.IntRange(1, 3).Draw(t, "nsub")
+	if c.Focus != "" {
+		nsub = rapid.IntRange(2, 5).Draw(t, "nsub-focused")
+	}
 	var subs []demonref.Sub
 	var notes []string
 	for i := 0; i < nsub; i++ {
-		lay := layouts[rapid.IntRange(0, len(layouts)-1).Draw(t, "layout")]
+		lay := pickLayout(t, c, "layout")
 		g := &bodyGen{t: t, e: &demonref.Enc{}}
 		g.run(lay.tmpl)
-		body, mk := mutateBody(t, g.e.B, g.lenPos)
+		body, mk := mutateBody(t, g.e.B, g.lenPos, c.Focus != "")
 		req := rapid.SampledFrom([]uint32{outstanding, outstanding, outstanding, 0, 0x12345678}).Draw(t, "req")
+		if c.Focus != "" && req == outstanding {
+			// every callback of a focused batch answers an outstanding task of its own, so that
+			// a final callback early in the batch does not shut the gate for the rest
+			req = outstanding + uint32(i)
+		}
 		subs = append(subs, demonref.Sub{Cmd: lay.cmd, ReqID: req, Body: body})
 		notes = append(notes, lay.name+"/"+mk)
 	}
@@ -336,7 +390,7 @@ func genReq(t *rapid.T, c Case, idx int) Req {
 		if rapid.IntRange(0, 3).Draw(t, "wrongkey") == 0 {
 			k, iv = keyOf(0, false)
 		}
-		lay := layouts[rapid.IntRange(0, len(layouts)-1).Draw(t, "playout")]
+		lay := pickLayout(t, c, "playout")
 		g := &bodyGen{t: t, e: &demonref.Enc{}}
 		g.run(lay.tmpl)
 		inner := demonref.Batch(target, 0, []demonref.Sub{{Cmd: lay.cmd, ReqID: outstanding, Body: g.e.B}}, k, iv)
@@ -370,6 +424,9 @@ func genReq(t *rapid.T, c Case, idx int) Req {
 	ai := 0
 	if c.NAgents > 0 {
 		ai = rapid.IntRange(0, c.NAgents-1).Draw(t, "agent")
+		if c.Focus != "" && rapid.IntRange(0, 3).Draw(t, "agent0") > 0 {
+			ai = 0 // the prepared state (open downloads, SMB child) hangs off agent 0
+		}
 	}
 	id := agentIDs[ai]
 	key, iv := keyOf(ai, c.ZeroKey && ai == 1)
@@ -456,6 +513,13 @@ func gen(t *rapid.T) Case {
 		c.Download = rapid.Bool().Draw(t, "download")
 	}
 	n := rapid.IntRange(1, 4).Draw(t, "nreqs")
+	if c.NAgents > 0 && rapid.Bool().Draw(t, "focused") {
+		c.Focus = rapid.SampledFrom(famNames).Draw(t, "focus")
+		if c.Focus == "download" {
+			c.Download = true
+		}
+		n = rapid.IntRange(2, 6).Draw(t, "nreqs-focused")
+	}
 	for i := 0; i < n; i++ {
 		c.Reqs = append(c.Reqs, genReq(t, c, i))
 	}
@@ -543,8 +607,10 @@ func check(c Case) *core.Violation {
 	for ri, r := range c.Reqs {
 		// every live agent has an outstanding request id before the request
 		for _, a := range w.TS.Agents.Agents {
-			if a != nil && !a.IsKnownRequestID(w.TS, outstanding, agent.COMMAND_SLEEP) {
-				a.AddRequest(agent.Job{RequestID: outstanding, Command: agent.COMMAND_SLEEP})
+			for k := uint32(0); a != nil && k < 5; k++ {
+				if !a.IsKnownRequestID(w.TS, outstanding+k, agent.COMMAND_SLEEP) {
+					a.AddRequest(agent.Job{RequestID: outstanding + k, Command: agent.COMMAND_SLEEP})
+				}
 			}
 		}
 		times := 1
@@ -658,6 +724,9 @@ func classify(c Case) core.Class {
 			cl.NonTrivial = true
 		}
 	}
+	if c.Focus != "" {
+		cl.Labels = append(cl.Labels, "focus:"+c.Focus)
+	}
 	last := c.Reqs[len(c.Reqs)-1]
 	cl.Fingerprint = fmt.Sprintf("%s|n=%d|p=%v|s=%v|d=%v|len=%d", cls(last), c.NAgents, c.Pivot, c.Service, c.Download, bucket(len(last.Raw)))
 	return cl
@@ -680,7 +749,7 @@ var _ = bytes.Equal
 func TestC01(t *testing.T) {
 	core.Run(t, core.Spec[Case]{
 		Property: "C01", Sub: "a",
-		Rule: "state (0-3 registered agents incl. id >= 2^31 and a zero-key agent, SMB child, open download, Service block on/off, an outstanding request id on every agent) built through the real endpoints, then 1-4 requests via the HTTP listener engine or the External-C2 handler: A random bytes (all lengths 0-24, up to 300); B batches of 1-3 grammar-valid callbacks drawn from 140 command/sub-command layouts of TaskDispatch, each corrupted by integer fields also drawn from the keys of the lookup tables TaskDispatch indexes (win32.Protections, InjectErrors, Win32ErrorCodes as found in the tree under test); truncation / length-prefix rewrite / appended bytes / bit flip, plus SMB_CONNECT with a (cut / mismatching) child registration, relayed SMB_COMMAND packages, CHECKIN metadata, self-nested pivot packages to depth 400, header corruptions (magic, unknown id, id 0, other key, header command, cut, size); C registrations (valid, truncated, id mismatch, existing id, zero key, trailing bytes). Oracle: no panic, returns within 30 s, status 200/404, all agent mutexes free, traffic classified invalid by the harness gets 404 and leaves sessions/queues/DB/loot identical. Non-trivial: a class B/C request that passes header, magic and session lookup; distinct = (class:first layout, #agents, pivot, service, download, length bucket)",
+		Rule: "state (0-3 registered agents incl. id >= 2^31 and a zero-key agent, SMB child, open download, Service block on/off, five outstanding request ids on every agent) built through the real endpoints, then 1-4 requests (2-6 in the half of the cases that focus on one family of layouts - downloads, sockets, tokens, jobs, ... - so that one handler sees a run of related messages) via the HTTP listener engine or the External-C2 handler: A random bytes (all lengths 0-24, up to 300); B batches of 1-3 grammar-valid callbacks drawn from 140 command/sub-command layouts of TaskDispatch, each corrupted by integer fields also drawn from the keys of the lookup tables TaskDispatch indexes (win32.Protections, InjectErrors, Win32ErrorCodes as found in the tree under test); truncation / length-prefix rewrite / appended bytes / bit flip, plus SMB_CONNECT with a (cut / mismatching) child registration, relayed SMB_COMMAND packages, CHECKIN metadata, self-nested pivot packages to depth 400, header corruptions (magic, unknown id, id 0, other key, header command, cut, size); C registrations (valid, truncated, id mismatch, existing id, zero key, trailing bytes). Oracle: no panic, returns within 30 s, status 200/404, all agent mutexes free, traffic classified invalid by the harness gets 404 and leaves sessions/queues/DB/loot identical. Non-trivial: a class B/C request that passes header, magic and session lookup; distinct = (class:first layout, #agents, pivot, service, download, length bucket)",
 		Gen:   gen, Check: check, Classify: classify,
 		Assumptions: []string{
 			"no third-party agent type is registered in generated states, so every non-Demon magic value is invalid traffic",
